@@ -9,13 +9,14 @@ from sa import normalize
 class M:  # minimal module view (no normalisation while snapshotting)
     def __init__(self, src): self.tree = ast.parse(src)
 
+# from the committed tree (HEAD), never from a working tree that may carry a seeded patch
+import subprocess
 mods = {}
-for dp, dn, fns in os.walk("/repo/asyncfix"):
-    dn[:] = sorted(d for d in dn if d != "__pycache__")
-    for fn in sorted(fns):
-        if fn.endswith(".py"):
-            full = os.path.join(dp, fn)
-            mods[os.path.relpath(full, "/repo")] = M(open(full, encoding="utf-8").read())
+for rel in subprocess.run(["git", "-C", "/repo", "ls-tree", "-r", "--name-only", "HEAD", "asyncfix"], capture_output=True, text=True, check=True).stdout.split():
+    if rel.endswith(".py"):
+        mods[rel] = M(subprocess.run(["git", "-C", "/repo", "show", f"HEAD:{rel}"], capture_output=True, text=True, check=True).stdout)
 snap = normalize.snapshot(mods)
+json.dump(snap, open(normalize.KNOWN, "w"), indent=0, sort_keys=True)
+snap["commit"] = subprocess.run(["git", "-C", "/repo", "rev-parse", "--short", "HEAD"], capture_output=True, text=True).stdout.strip()
 json.dump(snap, open(normalize.KNOWN, "w"), indent=0, sort_keys=True)
 print("known:", sum(len(v) for v in snap["functions"].values()), "functions,", sum(len(v) for v in snap["constants"].values()), "names;", os.path.getsize(normalize.KNOWN), "bytes")
